@@ -51,6 +51,7 @@ public:
                  * need_delete
                  */
                 lv_.at(pos).init_lv();
+                YAKUSHIMA_VERIF_POINT(2);
             }
         }
 
